@@ -21,6 +21,7 @@ import MdwModel.Generated.Source
 import MdwModel.Theorems.C06
 import MdwModel.Theorems.C20
 import MdwModel.Theorems.C12
+import MdwModel.Theorems.C08
 namespace Mdw
 
 /-- **Proof obligation over the regenerated source.** The steps of `fill_thread_stack`, in the order the Rust text has
@@ -184,6 +185,249 @@ theorem E2E_stack_in_image (d : DumpIn) (k : Nat) (t : DThread) (start : Nat) (b
   rw [hsl] at h3 h7
   rw [hsb] at h7
   exact ⟨h2, h3, h4, h7, hb.1⟩
+
+/-- the reader answers with exactly the requested bytes -/
+theorem gatherWindow_spec (env : GEnv) (mem : Nat → UInt8) (ip lo : Nat) (b : Bytes) (hr : ReadsExactly env mem)
+    (h : gatherWindow env ip = .ok (some (lo, b))) :
+    ipWindow env.ms ip = some (lo, b.length) ∧ b = (List.range b.length).map (fun k => mem (lo + k)) := by
+  unfold gatherWindow at h
+  split at h
+  · cases h
+  · rename_i lo' len hw
+    split at h
+    · cases h
+    · rename_i b' hrd
+      injection h with h; injection h with h; injection h with h1 h2
+      subst h1; subst h2
+      have := hr _ _ _ hrd
+      have hl : b'.length = len := by rw [this]; simp
+      rw [hl]
+      exact ⟨hw, this⟩
+
+/-- **End to end (the thread of the crash context).** Whatever its position in the list and whatever the size limit,
+    the thread the crash context blames is gathered from the crash context: its stack pointer, instruction pointer and
+    registers are the supplied ones, its stack is gathered as the crash-context thread (never shortened), and the
+    window around the supplied instruction pointer is what the window rule prescribes, read from the target. -/
+theorem E2E_crash_thread (env : GEnv) (cfg : GCfg) (c : CrashIn) (blamed idx n currPos : Nat) (t : TInfo) (d : DThread)
+    (hb : t.tid = blamed) (h : gatherThread env cfg (some c) blamed idx n currPos t = .ok d) :
+    d.tid = t.tid ∧ d.sp = c.sp ∧ d.ip = c.ip ∧ d.ctx = c.ctx ∧
+    gatherStack env cfg idx n currPos true c.sp c.ip = .ok d.stack ∧
+    gatherWindow env c.ip = .ok d.window := by
+  unfold gatherThread at h
+  simp only [hb, if_true] at h
+  split at h
+  · rename_i stack hs
+    split at h
+    · rename_i window hw
+      injection h with h
+      subst h
+      exact ⟨hb.symm, rfl, rfl, rfl, hs, hw⟩
+    all_goals cases h
+  all_goals cases h
+
+/-- **End to end (the crash-context thread is never shortened).** Under any size limit and at any list position, the
+    recorded stack of the thread the crash context blames reaches the end of the mapping that holds the supplied
+    stack pointer and starts on the stack pointer's page (or at the mapping's start). -/
+theorem E2E_crash_thread_full (env : GEnv) (cfg : GCfg) (mem : Nat → UInt8) (c : CrashIn) (blamed idx n currPos : Nat)
+    (t : TInfo) (d : DThread) (m : Mapping) (start : Nat) (bytes : Bytes)
+    (hp : 0 < env.page) (hw : HullOk env.ms) (hr : ReadsExactly env mem)
+    (hf : findMapping env.ms (c.sp - c.sp % env.page) = some m) (hs : mayBeStack (some m) = true) (hsp : c.sp < m.start + m.size)
+    (hsan : cfg.sanitize = true → WfMaps env.ms ∧ c.sp + 7 < 2 ^ 64)
+    (hb : t.tid = blamed) (h : gatherThread env cfg (some c) blamed idx n currPos t = .ok d)
+    (hst : d.stack = some (start, bytes)) :
+    start ≤ c.sp ∧ c.sp < start + bytes.length ∧ start + bytes.length = m.start + m.size ∧
+    (start = c.sp - c.sp % env.page ∨ start = m.start) := by
+  obtain ⟨_, _, _, _, hg, _⟩ := E2E_crash_thread env cfg c blamed idx n currPos t d hb h
+  rw [hst] at hg
+  obtain ⟨h1, h2, _, _, _, h6, _⟩ := E2E_stack_contains_sp env cfg mem idx n currPos true c.sp c.ip m start bytes hp hw hr hf hs hsp hsan hg
+  have := h6 (C06_not_shortened _ _ _ _ (Or.inr (Or.inl rfl)))
+  exact ⟨h1, h2, this.1, this.2⟩
+
+/-- … and every other thread from what ptrace reported, shortened by its position only -/
+theorem E2E_other_thread (env : GEnv) (cfg : GCfg) (crash : Option CrashIn) (blamed idx n currPos : Nat) (t : TInfo) (d : DThread)
+    (hb : crash = none ∨ t.tid ≠ blamed) (h : gatherThread env cfg crash blamed idx n currPos t = .ok d) :
+    d.tid = t.tid ∧ d.sp = t.sp ∧ d.ip = t.ip ∧ d.ctx = t.ctx ∧ d.window = none ∧
+    gatherStack env cfg idx n currPos false t.sp t.ip = .ok d.stack := by
+  unfold gatherThread at h
+  cases crash with
+  | none =>
+    simp only at h
+    split at h
+    · rename_i stack hs
+      injection h with h; subst h
+      exact ⟨rfl, rfl, rfl, rfl, rfl, hs⟩
+    all_goals cases h
+  | some c =>
+    have hne : t.tid ≠ blamed := by
+      rcases hb with hb | hb
+      · cases hb
+      · exact hb
+    simp only [hne, if_false] at h
+    split at h
+    · rename_i stack hs
+      injection h with h; subst h
+      exact ⟨rfl, rfl, rfl, rfl, rfl, hs⟩
+    all_goals cases h
+
+/-- the loop gathers the `k`-th listed thread with list position `k` -/
+theorem gatherThreadsFrom_get (env : GEnv) (cfg : GCfg) (crash : Option CrashIn) (blamed n currPos : Nat)
+    (ts : List TInfo) (i0 : Nat) (ds : List DThread)
+    (h : gatherThreadsFrom env cfg crash blamed n currPos i0 ts = .ok ds) :
+    ds.length = ts.length ∧
+    ∀ k t, ts[k]? = some t → ∃ d, ds[k]? = some d ∧ gatherThread env cfg crash blamed (i0 + k) n currPos t = .ok d := by
+  induction ts generalizing i0 ds with
+  | nil =>
+    simp only [gatherThreadsFrom] at h
+    injection h with h; subst h
+    exact ⟨rfl, fun k t hk => by simp at hk⟩
+  | cons t ts ih =>
+    simp only [gatherThreadsFrom] at h
+    split at h
+    · rename_i d hd
+      split at h
+      · rename_i ds' hds
+        injection h with h; subst h
+        obtain ⟨hl, hget⟩ := ih (i0 + 1) ds' hds
+        refine ⟨by simp [hl], ?_⟩
+        intro k t' hk
+        cases k with
+        | zero =>
+          simp only [List.getElem?_cons_zero, Option.some.injEq] at hk
+          subst hk
+          exact ⟨d, by simp, by simpa using hd⟩
+        | succ k =>
+          simp only [List.getElem?_cons_succ] at hk
+          obtain ⟨d', h1, h2⟩ := hget k t' hk
+          refine ⟨d', by simpa using h1, ?_⟩
+          have : i0 + 1 + k = i0 + (k + 1) := by omega
+          rw [← this]; exact h2
+      all_goals cases h
+    all_goals cases h
+
+/-- **End to end (every listed thread).** A successful gathering lists the threads one to one in order; the `k`-th is
+    gathered at list position `k` of `n` with the limit decision taken at header + directory + count + records. -/
+theorem E2E_threads (env : GEnv) (cfg : GCfg) (crash : Option CrashIn) (blamed numWriters : Nat) (ts : List TInfo)
+    (ds : List DThread) (h : gatherThreads env cfg crash blamed numWriters ts = .ok ds) :
+    ds.length = ts.length ∧ ds.map (·.tid) = ts.map (·.tid) ∧
+    ∀ k t, ts[k]? = some t → ∃ d, ds[k]? = some d ∧
+      gatherThread env cfg crash blamed k ts.length (32 + 12 * numWriters + 4 + 48 * ts.length) t = .ok d := by
+  unfold gatherThreads at h
+  obtain ⟨hl, hget⟩ := gatherThreadsFrom_get env cfg crash blamed _ _ ts 0 ds h
+  refine ⟨hl, ?_, fun k t hk => by simpa using hget k t hk⟩
+  apply List.ext_getElem?
+  intro k
+  simp only [List.getElem?_map]
+  cases hk : ts[k]? with
+  | none =>
+    have : ds[k]? = none := by
+      rw [List.getElem?_eq_none_iff] at hk ⊢; omega
+    rw [this]; rfl
+  | some t =>
+    obtain ⟨d, h1, h2⟩ := hget k t hk
+    rw [h1]
+    simp only [Option.map_some, Option.some.injEq]
+    by_cases hc : ∃ c, crash = some c ∧ t.tid = blamed
+    · obtain ⟨c, hc1, hc2⟩ := hc
+      subst hc1
+      exact (E2E_crash_thread env cfg c blamed _ _ _ t d hc2 h2).1
+    · have : crash = none ∨ t.tid ≠ blamed := by
+        cases crash with
+        | none => exact Or.inl rfl
+        | some c => exact Or.inr (fun he => hc ⟨c, rfl, he⟩)
+      exact (E2E_other_thread env cfg crash blamed _ _ _ t d this h2).1
+
+/-- **End to end (the window around the crash instruction pointer, into the image).** A dump whose thread list is the
+    gathered one, with a crash context whose instruction pointer lies in a mapping: the blamed thread's record is
+    followed in the memory list's blocks by a region that covers up to 128 bytes on either side of the instruction
+    pointer, clipped to that mapping, located right after the thread's stack in the image, holding the target's
+    bytes. -/
+theorem E2E_window_in_image (env : GEnv) (cfg : GCfg) (mem : Nat → UInt8) (c : CrashIn) (blamed : Nat) (ts : List TInfo)
+    (d : DumpIn) (k : Nat) (t : TInfo) (hr : ReadsExactly env mem)
+    (hg : gatherThreads env cfg (some c) blamed d.numWriters ts = .ok d.threads)
+    (hk : ts[k]? = some t) (hb : t.tid = blamed)
+    (m : Mapping) (hm : env.ms.find? (fun m => !(decide (c.ip < m.start) || decide (c.ip ≥ m.start + m.size))) = some m) :
+    ∃ dt lo b, d.threads[k]? = some dt ∧ dt.window = some (lo, b) ∧
+      lo = max m.start (c.ip - 128) ∧ lo + b.length = min (m.start + m.size) (c.ip + 128) ∧
+      b = (List.range b.length).map (fun j => mem (lo + j)) ∧
+      (⟨lo, b.length, threadPos d k + dt.stackLen⟩ : Desc) ∈ (acc3 d).blocks ∧
+      At (dumpBytes d) (threadPos d k + dt.stackLen) b := by
+  obtain ⟨_, _, hget⟩ := E2E_threads env cfg (some c) blamed d.numWriters ts d.threads hg
+  obtain ⟨dt, hdk, hgt⟩ := hget k t hk
+  obtain ⟨_, _, _, _, _, hw⟩ := E2E_crash_thread env cfg c blamed _ _ _ t dt hb hgt
+  -- the window rule finds the mapping, so a window is gathered (the read succeeded: the gathering did)
+  have hwin : ipWindow env.ms c.ip = some (max m.start (c.ip - 128), min (m.start + m.size) (c.ip + 128) - max m.start (c.ip - 128)) := by
+    unfold ipWindow
+    rw [hm]
+    simp [ipWindow.Src_ipHalf]
+  have hp := List.find?_some hm
+  simp only [Bool.not_eq_true', Bool.or_eq_false_iff, decide_eq_false_iff_not, Nat.not_lt, ge_iff_le, Nat.not_le] at hp
+  cases hdw : dt.window with
+  | none =>
+    rw [hdw] at hw
+    unfold gatherWindow at hw
+    rw [hwin] at hw
+    simp only at hw
+    split at hw <;> cases hw
+  | some w =>
+    obtain ⟨lo, b⟩ := w
+    rw [hdw] at hw
+    obtain ⟨h1, h2⟩ := gatherWindow_spec env mem c.ip lo b hr hw
+    rw [hwin] at h1
+    injection h1 with h1; injection h1 with h1 h1'
+    have hblk := (Image_thread_block d k dt hdk).2 lo b hdw
+    refine ⟨dt, lo, b, hdk, hdw, h1.symm, by omega, h2, hblk.1, hblk.2⟩
+
+/-! ### From the mappings to the module list in the image -/
+
+/-- a module of the module-list model (Model/Modules.lean) as content of the image model: the name converted to
+    UTF-16 units by the (trusted, C16) encoder `utf16` -/
+def toDModule (utf16 : Bytes → List Nat) (m : Mod.Module) : DModule :=
+  ⟨m.base, m.size, m.ident, utf16 m.name, m.version.map (fun v => (v.major, v.minor, v.patch, v.prerelease))⟩
+
+/-- **End to end (modules).** A dump whose module content is the module list the mappings writer gathers (the model of
+    `sections::mappings::write`: C08, over the aggregated mappings: C13): every target mapping that is interesting,
+    not covered by a caller mapping and has a usable identifier has a record in the image's module list — base
+    address, size, CodeView record = ELF signature ‖ identifier at the location the record names, name string right
+    behind it; the stream sits in directory slot 1 and counts exactly the gathered modules. -/
+theorem E2E_module_in_image (decode : Bytes → List Char) (utf16 : Bytes → List Nat) (d : DumpIn)
+    (ms : List Mapping) (facts : Mapping → Mod.Facts) (us : Mod.UserMap → Option Bytes) (users : List Mod.UserMap)
+    (hd : d.modules = (Mod.moduleList decode ms facts us users).map (toDModule utf16))
+    (m : Mapping) (hm : m ∈ ms) (hi : Mod.isInteresting m = true) (hc : Mod.isContainedIn m users = false)
+    (hid : Mod.idUsable (Mod.identifierOf (facts m)) = true) :
+    ∃ k dm, d.modules[k]? = some dm ∧
+      dm.base = m.start ∧ dm.size = m.size % 2 ^ 32 ∧ dm.ident = Mod.identifierOf (facts m) ∧
+      dm.name = utf16 (Mod.effectivePath m (Mod.sonameOf (facts m))) ∧
+      (dumpAcc d).dir[1]? = some ⟨ST_MODULE_LIST, 4 + 108 * d.modules.length, (acc1 d).pos + (moduleBlobs d.modules).length⟩ ∧
+      d.modules.length = (Mod.moduleList decode ms facts us users).length ∧
+      At (dumpBytes d) ((acc1 d).pos + (moduleBlobs d.modules).length + 4 + 108 * k) (moduleRec (modulePos d k) dm) ∧
+      At (dumpBytes d) (modulePos d k) (le 4 0x4270454c ++ dm.ident) ∧
+      At (dumpBytes d) (modulePos d k + (4 + dm.ident.length)) (mdStr dm.name) := by
+  -- the mapping's module
+  have htm : Mod.targetModule decode users m (facts m) =
+      some (Mod.rawModule decode m (Mod.identifierOf (facts m)) (Mod.sonameOf (facts m))) := by
+    simp [Mod.targetModule, hi, hc, hid]
+  have hmem : Mod.rawModule decode m (Mod.identifierOf (facts m)) (Mod.sonameOf (facts m)) ∈
+      Mod.moduleList decode ms facts us users := by
+    unfold Mod.moduleList
+    exact List.mem_append_left _ (List.mem_filterMap.mpr ⟨m, hm, htm⟩)
+  obtain ⟨k, hk⟩ := List.getElem?_of_mem hmem
+  have hdk : d.modules[k]? = some (toDModule utf16 (Mod.rawModule decode m (Mod.identifierOf (facts m)) (Mod.sonameOf (facts m)))) := by
+    rw [hd, List.getElem?_map, hk]; rfl
+  obtain ⟨h1, _, h3, h4, h5⟩ := Image_module d k _ hdk
+  have hne : (Mod.identifierOf (facts m)).isEmpty = false := by
+    unfold Mod.idUsable at hid
+    simp only [Bool.and_eq_true, Bool.not_eq_true'] at hid
+    exact hid.1
+  have hcv : (toDModule utf16 (Mod.rawModule decode m (Mod.identifierOf (facts m)) (Mod.sonameOf (facts m)))).cv =
+      le 4 0x4270454c ++ Mod.identifierOf (facts m) := by
+    simp [DModule.cv, toDModule, Mod.rawModule, hne]
+  refine ⟨k, _, hdk, rfl, rfl, rfl, rfl, h1, by rw [hd]; simp, h3, ?_, ?_⟩
+  · rw [hcv] at h4; exact h4
+  · have hl : (toDModule utf16 (Mod.rawModule decode m (Mod.identifierOf (facts m)) (Mod.sonameOf (facts m)))).cv.length =
+        4 + (Mod.identifierOf (facts m)).length := by
+      rw [hcv]; simp [le_length]
+    rw [hl] at h5
+    exact h5
 
 /-- Non-vacuity: a guard page below a stack mapping, the stack pointer inside the stack mapping, a reader that
     answers every request; thread 25 of 30 under a size limit that is already exhausted: the gathering records a
